@@ -9,7 +9,7 @@ with tempfile.TemporaryDirectory() as td:
     xml = os.path.join(td, "r.xml")
     env = {k: v for k, v in os.environ.items() if k != "NENGO_SPA_VERIF"}
     subprocess.run(["/venv/bin/python", "-m", "pytest", "-ra", "-q", "-p", "no:cacheprovider", "--timeout=900",
-                    "--continue-on-collection-errors", f"--junitxml={xml}"], cwd="/repo", env=env,
+                    "--continue-on-collection-errors", f"--junitxml={xml}"], cwd=os.environ.get("VERIF_REPO", "/repo"), env=env,
                    stdout=subprocess.DEVNULL, stderr=subprocess.DEVNULL)
     passed = set()
     for tc in ET.parse(xml).getroot().iter("testcase"):
